@@ -345,3 +345,13 @@ func instantiateName(target string, g *ssa.Function) string {
 	}
 	return target
 }
+
+// FuncNames lists all function names (sorted).
+func (w *World) FuncNames() []string {
+	var out []string
+	for n := range w.byName {
+		out = append(out, n)
+	}
+	sort.Strings(out)
+	return out
+}
